@@ -103,6 +103,48 @@ def main(pid, tier, seed):
                     meta[tid] = {'ruleset': desc, 'flags': flags, 'N': N, 'via': 'CrackingSession.run'}
                 limit_jobs.append((d, desc, flags, full))
 
+    # ---- C09: --limit on a resumed session (--load), also when the session was cut inside a Markov level ----
+    if pid == 'C09':
+        import shutil
+        from . import sessrules
+        for k in range(3 if tier == 'quick' else 20):
+            d = os.path.join(work, 'sr%d' % k)
+            desc = sessrules.make(rng, d, with_m=True)
+            E = sessrules.expected(d)
+            mpos = [i for i, e in enumerate(E, 1) if e[1]]
+            cuts = sorted({mpos[0], rng.choice(mpos), rng.randint(1, len(E) - 1)}) if mpos else [rng.randint(1, len(E) - 1)]
+            for g1 in cuts:
+                fn = os.path.join(d, 'lim.sav')
+                for f in (fn, fn[:-4] + '.omn'):
+                    if os.path.exists(f):
+                        os.remove(f)
+                r1 = session.run_session(ptq.load_pcfg(d, save_file=fn), session.new_save_config(), fn, quit_at_guess=g1)
+                if not os.path.exists(fn) or len(r1['lines']) >= len(E):
+                    continue
+                keep = {}
+                for f in (fn, fn[:-4] + '.omn'):
+                    if os.path.exists(f):
+                        keep[f] = open(f, 'rb').read()
+
+                def resumed(limit):
+                    for f in (fn, fn[:-4] + '.omn'):
+                        if os.path.exists(f):
+                            os.remove(f)
+                    for f, data in keep.items():
+                        open(f, 'wb').write(data)
+                    cfg, info = session.load_save(fn)
+                    return session.run_session(ptq.load_pcfg(d, save_file=fn), cfg, fn, load=True, limit=limit)['lines']
+                full2 = resumed(None)
+                strings.extend(full2)
+                total = len(full2)
+                for N in sorted({1, 2, 3, total - 1, total, total + 1, rng.randint(1, max(1, total))} - {0}):
+                    got = resumed(N)
+                    tid += 1
+                    traces.append({'tid': tid, 'kind': 'limit', 'N': N, 'full': [expand.cps(x) for x in full2],
+                                   'lines': [expand.cps(x) for x in got], 'hasout': False, 'stdout': []})
+                    meta[tid] = {'ruleset': desc, 'flags': {'load': True}, 'N': N, 'via': 'CrackingSession.run(load_session=True, limit=N)',
+                                 'first_session_quit_after': g1, 'cut_inside_markov': bool(E[g1 - 1][1]), 'got': len(got)}
+
     # ---- C09: the real command line (stdout purity + limit) ----
     cli_runs = 0
     if pid == 'C09':
@@ -165,6 +207,8 @@ def main(pid, tier, seed):
             w['lines'] = [''.join(map(chr, x)) for x in t['lines']][:12]
         verdict.violation(w, 'clause %s; %s' % (clause, core.short({k: m[k] for k in m if k != 'ruleset'}, 200)))
 
+    verdict.matcher('C09-F14-load-limit-ignores-restored-level',
+                    lambda w: w.get('flags', {}).get('load') and w.get('cut_inside_markov') and w.get('clause') in ('C09_length', 'C09_prefix'))
     verdict.matcher('C09-F1-banner-empty-line',
                     lambda w: w.get('clause') == 'C09_stdout_is_guess_stream'
                     and w.get('got_head', [None])[:1] == [''] and w.get('got_head')[1:] == w.get('want_head')[:3])
